@@ -32,7 +32,7 @@ let redirs_str rd =
 let cmd_str c =
   "C(tokens=" ^ tokens_str c.c_tokens ^ ",redirs=" ^ redirs_str c.c_redirs ^ ",from=" ^
   (match c.c_from with None -> "None" | Some (t, v) -> "(" ^ q t ^ "," ^ q v ^ ")") ^ ")"
-let perr = function PRedir e -> "E(" ^ rerr e ^ ")" | PFuel -> "OUT-OF-FUEL"
+let perr = function PRedir e -> "E(" ^ rerr e ^ ")" | PFuel -> "OUT-OF-FUEL" | PEmpty -> "E(EEmpty)"
 
 let envs_str envs =
   let tbl = Hashtbl.create 8 in
@@ -53,9 +53,7 @@ let ranges_str rs =
 
 let is_op s = (s = [n_of_int 59]) || (s = [n_of_int 38; n_of_int 38]) || (s = [n_of_int 124; n_of_int 124])
 
-let cls_str = function
-  | FRange -> "range" | FArith -> "arith" | FSubst -> "subst" | FNlDollar -> "nl-dollar"
-  | FSelfRef -> "selfref" | FBraceOpen -> "brace-open" | FHereString -> "herestring"
+let cls_str = function FCalcDeep -> "calc-deep"
 
 let () =
   iter_lines (fun l ->
@@ -71,16 +69,9 @@ let () =
                                  (if is_arithmetic seg then "1" else "0"))) segs;
         print_endline (Buffer.contents b)
     | "back" :: a :: fs ->
-        let toks = tokens_of_fields fs in
-        let m1 = (match plan_and_lookup (a = "1") toks with
-         | SErr e -> "plan=" ^ perr e ^ " fw=-"
-         | SPlan (cl, f) -> "plan=" ^ plan_str cl ^ " fw=" ^ fw_str f) in
-        (* the planner with notes/C05-fix-1.patch *)
-        let m2 = (match plan_and_lookup_fixed (a = "1") toks with
-         | SErr2 (P2 e) -> "plan=" ^ perr e ^ " fw=-"
-         | SErr2 PEmptyCmd -> "plan=E(EEmptyCmd) fw=-"
-         | SPlan2 (cl, f) -> "plan=" ^ plan_str cl ^ " fw=" ^ fw_str f) in
-        print_endline (m1 ^ "\t" ^ m2)
+        (match plan_and_lookup (a = "1") (tokens_of_fields fs) with
+         | SErr e -> print_endline ("plan=" ^ perr e ^ " fw=-")
+         | SPlan (cl, f) -> print_endline ("plan=" ^ plan_str cl ^ " fw=" ^ fw_str f))
     | ["hl"; f] ->
         (match highlight (str_of_field f) with
          | Ok rs -> print_endline (ranges_str rs)
